@@ -189,15 +189,17 @@ def generate(rng: random.Random, tier: str) -> dict:
         else:
             how = rng.choice(["unknown_label", "length", "get_raises", "overflow"])
             k = rng.randint(1, len(base_labels))
-            ops.append(
-                {
-                    "op": "BAD_UPDATE",
-                    "how": how,
-                    "labels": rng.sample(base_labels, k=k),
-                    "values": [round(rng.uniform(-2.0, 3.0), 5) for _ in range(k)],
-                    "at": rng.randint(1, 6),
-                }
-            )
+            bad = {
+                "op": "BAD_UPDATE",
+                "how": how,
+                "labels": rng.sample(base_labels, k=k),
+                "values": [round(rng.uniform(-2.0, 3.0), 5) for _ in range(k)],
+                "at": rng.randint(1, 6),
+            }
+            ops.append(bad)
+            if rng.random() < 0.5:
+                # the caller retries the very same update without the mistake
+                ops.append({"op": "UPDATE", "labels": list(bad["labels"]), "values": list(bad["values"])})
     return {"engine": NAME, "kind": "history", "params": declared, "constructor": constructor, "ops": ops}
 
 
